@@ -124,6 +124,13 @@ class StmtMixin:
 
     def x_AnnAssign(self, node, st, fr):
         if node.value is None:
+            import re as _re
+            ct = node.annotation.value if isinstance(node.annotation, ast.Constant) else None
+            m = _re.match(r'^([\w. ]+)\[(\d+)\]$', ct or '')
+            if m and isinstance(node.target, ast.Name):
+                # local C array: a fixed-size list of (uninitialised, i.e. arbitrary) values
+                key = sortkey(spec_from_ctype(m.group(1)))
+                st.locals[node.target.id] = [self.fresh('%s_%d' % (node.target.id, i), key) for i in range(int(m.group(2)))]
             return [('normal', st, None)]
         fake = ast.Assign(targets=[node.target], value=node.value)
         ast.copy_location(fake, node)
